@@ -19,7 +19,8 @@ class Transition:
     witness_count = 1
     strkeys = ('k',)
     thorough = False
-    exists = True      # every row slot exists (absence is covered by symbolic foreign keys); None = symbolic
+    # parents always exist (their absence is covered by symbolic foreign keys / deleted flags); child rows may or may not exist
+    exists = {'Topic': True, 'Subscription': True, 'Message': None, 'Delivery': None, 'Snapshot': None}
     dialect = 'sqlite3'
 
     def prepare_db(self, ex, db):
